@@ -81,8 +81,8 @@ PROPS = {
                "untouched on early exit. Tied to the code by exhaustive + random differential runs (all indices incl. out of range with catch_unwind, all decision sequences on vectors <= 3)."),
         technique="Lean 4 proof (induction over the traversal loop, case analysis per mutator) + model/implementation correspondence",
         design_ref="DESIGN.md §6 C17"),
-    "C05": dict(vec_prop(["EyeballVerif.Props.C05", "EyeballVerif.Props.StreamReach", "EyeballVerif.Props.StreamStep", "EyeballVerif.Lemmas.StepInv"],
-        "c05_replay_inv (at every reachable state — any capacity, any finite sequence of updates, traversals, transactions, subscriptions, drops and polls — every live receiver's replica is defined and replaying what the channel still owes it yields the current contents), c05_delivered_applicable, c05_caught_up_equal, c05_never_panics; c05_exec_faithful: for every mutator and contents, the recorded diff replayed strictly on the contents before gives the contents after; no diff only if nothing changed; every diff is validOn the contents. Fine-grained (Props/StreamStep, Lemmas/StepInv): the same at the granularity of single receive operations — poll_next is a sequence of recv()/try_recv() operations between which the writer (another thread) may publish, commit or be dropped; the invariant StInv (VInv with the replica following the cursor + one clause per phase: drain / inside handle_lag) is preserved by every receive operation (sinv_micro) and every other event (sinv_ev, via the extension relation Ext), hence along every interleaving (sinv_run); micro_return: what poll_next hands out when it returns; c05s_never_panics (the unreachable! of handle_lag too), c05s_delivered_applicable, micro_progress / poll_terminates (every receive operation returns or moves the cursor strictly forward: without new messages a poll_next returns after at most one receive operation per pending message plus one — the drain loop and handle_lag cannot spin)", engines=[{"name": "vec"}, {"name": "vstep"}, {"name": "vconc"}]),
+    "C05": dict(vec_prop(["EyeballVerif.Props.C05", "EyeballVerif.Props.StreamReach", "EyeballVerif.Props.StreamStep", "EyeballVerif.Props.StreamAtomic", "EyeballVerif.Lemmas.StepInv"],
+        "c05_replay_inv (at every reachable state — any capacity, any finite sequence of updates, traversals, transactions, subscriptions, drops and polls — every live receiver's replica is defined and replaying what the channel still owes it yields the current contents), c05_delivered_applicable, c05_caught_up_equal, c05_never_panics; c05_exec_faithful: for every mutator and contents, the recorded diff replayed strictly on the contents before gives the contents after; no diff only if nothing changed; every diff is validOn the contents. Fine-grained (Props/StreamStep, Lemmas/StepInv): the same at the granularity of single receive operations — poll_next is a sequence of recv()/try_recv() operations between which the writer (another thread) may publish, commit or be dropped; the invariant StInv (VInv with the replica following the cursor + one clause per phase: drain / inside handle_lag) is preserved by every receive operation (sinv_micro) and every other event (sinv_ev, via the extension relation Ext), hence along every interleaving (sinv_run); micro_return: what poll_next hands out when it returns; c05s_never_panics (the unreachable! of handle_lag too), c05s_delivered_applicable, micro_progress / poll_terminates (every receive operation returns or moves the cursor strictly forward: without new messages a poll_next returns after at most one receive operation per pending message plus one — the drain loop and handle_lag cannot spin); pollRun_atomic (Props/StreamAtomic): the atomic poll of the coarse model, on which the adapter pipelines are proved, IS the fine-grained poll run with nothing in between — same item, same world (lag_run / drain_run: the loops of handle_lag and of the batched stream by induction)", engines=[{"name": "vec"}, {"name": "vstep"}, {"name": "vconc"}]),
         claim=("Lean 4 theorems: stream invariant VInv preserved by every event (vinv_vstep) hence c05_replay_inv at every reachable state: every delivered diff was applicable to the subscriber's replica, and replica + still-owed diffs = current contents; c05_exec_faithful (every call's diff, replayed strictly on the state before, yields the state after; documented no-ops record nothing; exactly one diff otherwise) "
                "plus the receiver-level theorems shared with C06/C08; tied to the code by the vec engine, whose implementation-side oracle replays every delivered diff on a strict replica "
                "and compares it with the vector after every message, for plain and batched streams."),
